@@ -43,8 +43,8 @@ theorem process_stagnant (s : EqFilter ‚Ñù) (h : s.Stagnant) (xs : List (Frame ‚
          (runTick (tickV s dt) (s.ic1eq, s.ic2eq) xs).2) := by
   obtain ‚ü®hf, hg, hq‚ü© := h
   unfold process
-  simp only [Parameter.settle tw64 s.frequency _ info hf, Parameter.settle tw32 s.gain _ info hg,
-    Parameter.settle tw64 s.q _ info hq]
+  simp only [Parameter.settleA tw64 s.frequency _ info hf, Parameter.settleA tw32 s.gain _ info hg,
+    Parameter.settleA tw64 s.q _ info hq]
   have hinj : ({ s with
       frequency := { s.frequency with prev := s.frequency.raw }
       gain := { s.gain with prev := s.gain.raw }
